@@ -1,5 +1,5 @@
 ENGINES = [
-    {'name': 'E1-enum', 'path': 'mc/engine_enum.py', 'serves_properties': ['C01', 'C02', 'C04', 'C05', 'C06'],
+    {'name': 'E1-enum', 'path': 'mc/engine_enum.py', 'serves_properties': ['C01', 'C02', 'C04', 'C05', 'C06', 'C12', 'C19'],
      'kind_free_text': 'sharded exhaustive enumeration of a finite input/configuration space of the real code against a reference model'},
     {'name': 'E2-bfs', 'path': 'mc/engine_bfs.py', 'serves_properties': ['C03', 'C04', 'C05'],
      'kind_free_text': 'explicit-state breadth-first search over live implementation objects (state = replayable operation history, canonicalised from the complete vars() of the objects), level-parallel'},
@@ -39,3 +39,14 @@ CHECKS['C03'] = dict(
     technique='explicit-state search to a fixed point over live Message objects (setattr/delattr/+=/copy transitions, constructor/from_dict/from_str probes at every state) against a reference validator',
     text='For each of the 18 message types the set of message states reachable through the checked API is explored to a fixed point on real objects; every transition (accepted or rejected assignment, deletion, data +=, copy with overrides, construction, from_dict, from_str) over boundary and ill-typed value alphabets is judged by a reference validator typed from docs/message_types.rst: result valid, rejected operations raise ValueError/TypeError/AttributeError and leave the object unchanged, type and key set never change.',
     note='Values strictly between the range limits are represented by the midpoint; bool is treated as an integer; sysex payload growth expanded to length 3.')
+
+CHECKS['C12'] = dict(
+    engine='E1-enum', category='exploration', design_ref='DESIGN.md 5/C12',
+    technique='exhaustive enumeration of track lists over an event alphabet, each merged by the real merge_tracks and compared with an independent absolute-time oracle',
+    text='Every list of 1-3 tracks up to the stated lengths over {note, set_tempo, unknown meta, end_of_track} x delta {0,1,2} (end_of_track missing, repeated, mid-track; empty tracks; no tracks) is merged with both skip_checks values and through MidiFile.merged_track; an independent oracle recomputes absolute ticks, the (tick, track, index) order, the single final end_of_track and the total duration, and the inputs are compared with a snapshot.',
+    note='Deltas limited to {0,1,2}; track lengths bounded (quick 4/2/1, thorough 5/3/2 for 1/2/3 tracks).')
+CHECKS['C19'] = dict(
+    engine='E1-enum', category='exploration', design_ref='DESIGN.md 5/C19',
+    technique='exhaustive enumeration of message lists, both file formats and whitespace layouts through real files on tmpfs',
+    text='Every message list up to length 4 (5 thorough) over 8 representative messages is written and read back in both formats; every assignment of 8 whitespace separators to the gaps of small plain-text files is read; malformed hex must raise ValueError.',
+    note='Payload contents limited to representatives (lengths 0,1,3,300,5000).')
